@@ -45,3 +45,17 @@ struct box { int * p; size_t n; };
 void al_bad(struct box * b, size_t n) { int * p = malloc(n); p[0] = 0; b->p = p; b->n = n; }
 void al_good(struct box * b, size_t n) { int * p = malloc(n); if (p != NULL) { p[0] = 0; b->p = p; b->n = n; } }
 void al_commit_on_failure(struct box * b, size_t n) { int * p = realloc(b->p, n); if (p != NULL) { b->p = p; } b->n = n; }
+
+/* ---- checked-arithmetic builtins ------------------------------------------------------------------ */
+void * nw_builtin_checked(size_t n, size_t sz)
+{
+    size_t bytes;
+    if (__builtin_mul_overflow(n, sz, &bytes)) { return NULL; }
+    return malloc(bytes);
+}
+void * nw_builtin_flag_ignored(size_t n, size_t sz)
+{
+    size_t bytes;
+    (void)__builtin_mul_overflow(n, sz, &bytes);
+    return malloc(bytes);
+}
